@@ -114,8 +114,8 @@ impl<'a, const PT: u8, const MIN: usize, const SSRC: bool> TryFrom<&'a Packet<'a
 }
 
 /// The family: (packet type, minimum length, has SSRC).  Index = "fam" in scripts.
-pub const FAMILY: [(u8, usize, bool); 6] =
-    [(242, 12, true), (199, 4, false), (207, 8, true), (0, 16, true), (255, 12, true), (192, 28, true)];
+pub const FAMILY: [(u8, usize, bool); 7] =
+    [(242, 12, true), (199, 4, false), (207, 8, true), (0, 16, true), (255, 12, true), (192, 28, true), (242, 20, true)];
 
 /// Dispatch a generic closure-like visitor over the family member `fam`.
 #[macro_export]
@@ -128,6 +128,7 @@ macro_rules! with_family {
             3 => $mac!(0, 16, true, $($args)*),
             4 => $mac!(255, 12, true, $($args)*),
             5 => $mac!(192, 28, true, $($args)*),
+            6 => $mac!(242, 20, true, $($args)*),      // same packet type as member 0, larger minimum
             _ => $crate::util::tool_error("bad family index"),
         }
     };
